@@ -57,11 +57,21 @@ def rand_step(rng, ncallers, allow_drop=True):
 def rand_batches(rng, ncallers, nsteps, allow_drop=True):
     batches = []
     i = 0
+    stalled = False
     while i < nsteps:
         bs = 1 if rng.random() < 0.65 else rng.randint(2, 3)
         b = [rand_step(rng, ncallers, allow_drop) for _ in range(bs)]
+        # write backpressure: the transport takes a few more bytes and then stalls until resumed (timers may expire meanwhile)
+        if not stalled and rng.random() < 0.06:
+            b.insert(0, {"op": "wstall", "n": rng.choice([0, 0, 1, 3, 5, 9, 14])})
+            stalled = True
+        elif stalled and rng.random() < 0.35:
+            b.append({"op": "wresume"})
+            stalled = False
         batches.append(b)
         i += bs
+    if stalled:
+        batches.append([{"op": "wresume"}])
     return batches
 
 
@@ -199,7 +209,31 @@ def tlists(rng, run):
     return {"run": run, "cfg": cfg, "batches": batches}
 
 
-PROFILES = {"base": base, "faults": faults, "handshake": handshake, "art": art, "tlists": tlists}
+def long(rng, run):
+    """A long-lived connection: > 100 request / reply exchanges and notifications, so that the byte counters of the connection
+    pass the receive buffer size (4096) and its multiples with replies and idle notifications starting right before them."""
+    cfg = {"callers": 1, "split_seed": rng.getrandbits(48) | 1}
+    batches = []
+    for i in range(rng.randint(90, 160)):
+        x = rng.random()
+        if x < 0.62:
+            batches.append([{"op": "issue", "c": 0, "kind": "raw", "cmds": [{"pad": rng.choice([0, 0, 1, 2, 3, 4, 6, 9])}]}])
+            batches.append([{"op": "deliver"}])
+            batches.append([{"op": "deliver"}])
+        elif x < 0.72:
+            batches.append([{"op": "issue", "c": 0, "kind": "list", "cmds": rand_cmds(rng, 3)}])
+            batches.append([{"op": "deliver"}])
+            batches.append([{"op": "deliver"}])
+        elif x < 0.9:
+            batches.append([{"op": "timeout"}])
+            batches.append([{"op": "change", "subs": rng.sample(SUBS, rng.choice([1, 1, 2]))}])
+            batches.append([{"op": "deliver"}])
+        else:
+            batches.append([{"op": "timeout"}])
+    return {"run": run, "cfg": cfg, "batches": batches}
+
+
+PROFILES = {"base": base, "faults": faults, "handshake": handshake, "art": art, "tlists": tlists, "long": long}
 
 
 def generate(profile, n, seed, start=0):
